@@ -815,6 +815,69 @@ theorem unquoteSafe_id (v : Str) (h : v.contains PCT = false) : unquoteSafe v = 
   rw [h]; rfl
 
 
+/-! ## domain masks match the whole host -/
+
+theorem globStar_some (k : Str → Bool) (s : Str) (n : Nat) (h : starLoop k s n = true) :
+    ∃ j, k (s.drop j) = true := by
+  induction n with
+  | zero => exact ⟨0, by simpa [starLoop] using h⟩
+  | succ n ih =>
+    simp only [starLoop, Bool.or_eq_true] at h
+    rcases h with h | h
+    · exact ⟨n + 1, h⟩
+    · exact ih h
+
+/-- a star-free pattern matches only itself -/
+theorem globMatch_literal (lit s : Str) (hl : (42 : Nat) ∉ lit) (h : globMatch lit s = true) : s = lit := by
+  induction lit generalizing s with
+  | nil => simpa [globMatch] using h
+  | cons c lit ih =>
+    have hc : c ≠ 42 := fun e => hl (by simp [e])
+    cases s with
+    | nil => simp [globMatch, hc] at h
+    | cons d st =>
+      simp only [globMatch, hc, if_false, Bool.and_eq_true, beq_iff_eq] at h
+      rw [h.1, ih st (fun hm => hl (List.mem_cons_of_mem _ hm)) h.2]
+
+/-- **mask_full_match.** A mask whose last part `lit` is free of `*` (e.g. `*.example.com`) matches
+only hosts that *end* with that literal text: nothing can follow it. -/
+theorem glob_suffix (p0 lit s : Str) (hl : (42 : Nat) ∉ lit) (h : globMatch (p0 ++ lit) s = true) :
+    ∃ s0, s = s0 ++ lit := by
+  induction p0 generalizing s with
+  | nil => exact ⟨[], by simpa using globMatch_literal lit s hl h⟩
+  | cons c p0 ih =>
+    by_cases hc : c = 42
+    · subst hc
+      simp only [List.cons_append, globMatch, if_true] at h
+      obtain ⟨k, hk⟩ := globStar_some _ _ _ h
+      obtain ⟨s0, hs0⟩ := ih _ hk
+      exact ⟨s.take k ++ s0, by rw [List.append_assoc, ← hs0, List.take_append_drop]⟩
+    · cases s with
+      | nil => simp [globMatch, hc] at h
+      | cons d st =>
+        simp only [List.cons_append, globMatch, hc, if_false, Bool.and_eq_true, beq_iff_eq] at h
+        obtain ⟨s0, hs0⟩ := ih _ h.2
+        exact ⟨d :: s0, by rw [hs0]; rfl⟩
+
+/-- … hence a `MaskDomain` rule with a literal tail only captures hosts that end with exactly
+that text: `*.example.com` never takes `a.example.com.attacker.net`, `a.example.community` or
+`a.example.com:8443` (none of them ends with `.example.com`). -/
+theorem mask_match_ends_with_literal (p0 lit host : Str) (hl : (42 : Nat) ∉ lit)
+    (h : ruleMatch (.mask (p0 ++ lit)) (some host) = true) : ∃ s0, host = s0 ++ lit := by
+  simp only [ruleMatch] at h
+  split at h
+  · cases h
+  · simp only [Bool.and_eq_true] at h
+    exact glob_suffix p0 lit host hl h.1
+
+/-- the seeded-defect hosts, on the model: `*.b.example` takes `x.b.example` and nothing that
+continues after it -/
+example :
+    ruleMatch (.mask [42, 46, 98, 46, 101]) (some [120, 46, 98, 46, 101]) = true ∧
+    ruleMatch (.mask [42, 46, 98, 46, 101]) (some [120, 46, 98, 46, 101, 46, 110, 101, 116]) = false ∧
+    ruleMatch (.mask [42, 46, 98, 46, 101]) (some [120, 46, 98, 46, 101, 58, 56]) = false ∧
+    ruleMatch (.mask [42, 46, 98, 46, 101]) (some [120, 10, 46, 98, 46, 101]) = false := by decide +kernel
+
 /-! ## non-vacuity and the findings as kernel-checked facts about the model -/
 
 def GET : Str := [71, 69, 84]
